@@ -17,7 +17,8 @@ RULE = ("cases are (kind, 32-byte key class, plaintext bytes, method) drawn from
         "distinct = distinct case content")
 REQUIRED = ("aes_oracle_decrypts", "aes_library_decrypts_oracle_output", "xor_oracle_checks", "malformed_rejected",
             "iv_sets_checked", "wrong_key_checks", "stored_secret_shapes_rejected", "sessions_judged", "provider_objects_judged",
-            "rekeyed_objects_judged", "key_file_replaced_between_contexts")
+            "rekeyed_objects_judged", "key_file_replaced_between_contexts", "iv_checks_under_reseeded_global_random",
+            "stored_secret_reloaded_after_rekey")
 ASSUMPTIONS = ["the pure-Python AES-256-CBC/PKCS7 oracle (vf/aes_ref.py, self-tested on FIPS-197 C.3 and SP 800-38A "
                "F.2.5/F.2.6) is the 'standard implementation'",
                "base64 text containing characters outside the alphabet is not judged (Python's decoder ignores them)"]
@@ -188,6 +189,23 @@ def run(case, ctx, res):
             res.viol("M-iv", feat, "equal ciphertexts for equal plaintexts (%d distinct of %d)" % (len(set(cts)), n))
         if any(c[:16] == bytes(16) for c in cts):
             res.viol("M-iv", feat, "all-zero IV")
+        # the IV must come from the operating system, not from a reproducible generator: with the process-wide `random`
+        # (and numpy-free) state put back to the same seed before each encryption the IVs must still differ
+        import random as _random
+
+        saved = _random.getstate()
+        try:
+            again = []
+            for _ in range(4):
+                _random.seed(case["r"])
+                with kf as k:
+                    again.append(k.encrypt(pt, method=method).ciphertext[:16])
+        finally:
+            _random.setstate(saved)
+        res.count("iv_checks_under_reseeded_global_random")
+        if len(set(again)) != len(again):
+            res.viol("M-iv", feat + ":reseeded", "the IV repeats when the global random module is re-seeded before each encryption "
+                     "(%d distinct of %d): it is derived from a reproducible generator" % (len(set(again)), len(again)))
         res.nontrivial(kind, method, key.hex(), ptb.hex())
 
     elif kind == "provider":
@@ -375,4 +393,14 @@ def run(case, ctx, res):
                 res.count("stored_secret_good_decrypts")
                 if ok != text:
                     res.viol("M-stored", "stored/good", "well-formed stored secret decrypts to %r, not %r" % (ok, text))
+                # the key file is replaced by another key: the SAME configuration reading the SAME stored value again
+                # must not come up with the plaintext any more
+                if len(ptb) >= 4:
+                    with open(path, "wb") as fp:
+                        fp.write(bytes((b + 1 + i) % 256 for i, b in enumerate(key)))
+                    err2, val2 = _raises(lambda: field.to_python(cfg, {"method": sv.method, "ciphertext": b64}))
+                    res.count("stored_secret_reloaded_after_rekey")
+                    if not err2 and val2 == text:
+                        res.viol("M-wrong-key", "stored/after-rekey", "after the key file was replaced, the same configuration still "
+                                 "returns the plaintext of a value stored under the old key")
         res.nontrivial(kind, what, method, len(ptb), key.hex()[:8])
